@@ -117,7 +117,7 @@ Combine(p, n, x) ==    \* p has positive coefficient a on x, n negative b: p/a +
 RECURSIVE FMUnsat(_, _)
 FMUnsat(cs, fuel) ==
   IF \E c \in cs : Absurd(c) THEN TRUE
-  ELSE IF VarsOf(cs) = {} \/ fuel = 0 \/ Cardinality(cs) > 60 THEN FALSE
+  ELSE IF VarsOf(cs) = {} \/ fuel = 0 \/ Cardinality(cs) > 40 THEN FALSE
   ELSE LET x == CHOOSE y \in VarsOf(cs) :
                   \A z \in VarsOf(cs) :
                      Cardinality({ c \in cs : CoefOf(c, y)[1] > 0 }) * Cardinality({ c \in cs : CoefOf(c, y)[1] < 0 })
@@ -198,7 +198,7 @@ LitsOf(atoms, val) == { [t |-> a, s |-> val[a]] : a \in atoms }
 Refute(tt, F, T, F0) ==
   /\ F # {} /\ \A f \in F : ~HasLet(tt, f)
   /\ LET atoms == UNION { AtomsOf(tt, f) : f \in F } IN
-     /\ Cardinality(atoms) <= 9
+     /\ Cardinality(atoms) <= 7
      /\ \A val \in [atoms -> BOOLEAN] :
           (\E f \in F : ~BVal(tt, f, val)) \/ TUnsatV(tt, LitsOf(atoms, val), val, T, F0)
 =============================================================================
